@@ -9,6 +9,18 @@ HERE = os.path.dirname(os.path.dirname(os.path.abspath(__file__)))
 TECH = 'Lean 4 theorems over an executable model + checked correspondence (differential, line protocol) with /repo'
 
 CLAIMED = {
+    'C05': {
+        'text': 'Proof: over the directory state machine of save / read_directory (seven cache files; contents absent / torn / written '
+                'from object t) C05_crash_inv, C05_history_inv and C05_crash_safe show that for every history of reads, saves and '
+                'saves interrupted at ANY effect (optionally torn inside the next np.savez) a read returns the parse of the source '
+                'or exactly one completely saved object; C05_full_save (no stale file survives), C05_cache_transparent and '
+                'C05_load_complete_save cover the other clauses. Tied to the tree by (T) the traced order of real file effects of '
+                'save() = saveSteps, and (D) random + exhaustive crash-point histories on real directories with injected crashes.',
+        'note': 'crash = BaseException before/inside the k-th file effect, earlier effects durable and ordered; key scheme '
+                '(to_dict/from_dict) covered by the save->load exactness oracle, not yet by a theorem; one open known finding (time series)',
+        'technique': 'Lean 4 proof (directory-machine invariant over histories x crash points) + traced-effect tie + differential crash-injection histories',
+        'design': '4/C05',
+    },
     'C07': {
         'text': 'Proof: C07_no_clobber / C07_only_new_files / C07_spelling_independent are kernel-checked theorems over the '
                 'model of write()\'s check/create plan for every format, name, file system and msh-only flag; the model is tied '
